@@ -20,6 +20,7 @@ import (
 	"errors"
 	"github.com/dgraph-io/badger/v4"
 	"github.com/mimiro-io/datahub/internal/conf"
+	"github.com/mimiro-io/datahub/internal/verifhook"
 	"go.uber.org/zap"
 )
 
@@ -122,6 +123,7 @@ func (garbageCollector *GarbageCollector) Cleandeleted() error {
 		binary.BigEndian.PutUint16(outgoingBuffer[34:], 0) // deleted.
 		binary.BigEndian.PutUint32(outgoingBuffer[36:], ds.InternalID)
 	*/
+	verifhook.Point("gc.afterEntities")
 	index = make([]byte, 2)
 	binary.BigEndian.PutUint16(index, OutgoingRefIndex)
 	err = garbageCollector.deleteByPrefixAndSelectorFunction(index, func(key []byte) bool {
@@ -143,6 +145,7 @@ func (garbageCollector *GarbageCollector) Cleandeleted() error {
 		binary.BigEndian.PutUint16(incomingBuffer[34:], 0) // deleted.
 		binary.BigEndian.PutUint32(incomingBuffer[36:], ds.InternalID)
 	*/
+	verifhook.Point("gc.afterOutgoing")
 	index = make([]byte, 2)
 	binary.BigEndian.PutUint16(index, IncomingRefIndex)
 	err = garbageCollector.deleteByPrefixAndSelectorFunction(index, func(key []byte) bool {
@@ -153,6 +156,7 @@ func (garbageCollector *GarbageCollector) Cleandeleted() error {
 	if err != nil {
 		return err
 	}
+	verifhook.Point("gc.afterIncoming")
 
 	return nil
 }
